@@ -6,10 +6,15 @@ from . import env, core, checks
 
 
 def main():
-    if os.environ.get('PYTHONHASHSEED') != '0':
+    exe = sys.executable
+    if sys.version_info < (3, 12) and os.path.exists('/venv/bin/python') and not os.environ.get('YVM_NO_REEXEC'):
+        # the step clock needs sys.monitoring (3.12); the repository's own interpreter is /venv/bin/python
+        exe = '/venv/bin/python'
+    if os.environ.get('PYTHONHASHSEED') != '0' or exe != sys.executable:
         # deterministic set / dict-of-str iteration in generators, also for replays
         os.environ['PYTHONHASHSEED'] = '0'
-        os.execv(sys.executable, [sys.executable, '-m', 'yvm'] + sys.argv[1:])
+        os.environ['YVM_NO_REEXEC'] = '1'
+        os.execv(exe, [exe, '-m', 'yvm'] + sys.argv[1:])
     ap = argparse.ArgumentParser(prog='yvm')
     ap.add_argument('cmd')
     ap.add_argument('rest', nargs='*')
